@@ -5,7 +5,7 @@
 From Hive.Base Require Import Prelude.
 From Hive.Model Require Import Types KernelBase SimOps States Step Harness.
 From Hive.Gen Require Import Kernels.
-From Hive.Proofs Require Import VehFrame Macro Guards Count CountInv DispInv PlaceInv.
+From Hive.Proofs Require Import VehFrame Macro Guards Count CountInv DispInv PlaceInv LedgerInv.
 Local Open Scope Z_scope.
 
 Definition all_entries {A} (f : positive -> A -> bool) (m : pmap A) : bool := forallb (fun kv => f (fst kv) (snd kv)) (PM.elements m).
@@ -144,24 +144,49 @@ Proof. reflexivity. Qed.
 Definition step_ops (ops : list (XOp * tok)) : option (list Op) :=
   fold_right (fun x acc => match fst x, acc with XStep o, Some l => Some (o :: l) | _, _ => None end) (Some []) ops.
 Definition all_inv_b (s : Sim) : bool := vkeys_b s && inv_counts_b s && inv_disp_b s && inv_place_b s.
+(* ---- C03 ledger (evaluated as a consistency check of the conclusion; the premise is "nothing filed yet") ---- *)
+Definition rstatus_eqb (a b : rstatus) : bool :=
+  match a, b with Unknown, Unknown | Waiting, Waiting | PickedUp, PickedUp | Cancelled, Cancelled => true | _, _ => false end.
+Fixpoint wf_b (init : id -> rstatus) (l : list Event) : bool :=
+  match l with
+  | [] => true
+  | e :: t => wf_b init t && match e with
+                             | EvPickup r _ _ _ _ | EvCancel r _ _ => rstatus_eqb (status init t r) Waiting
+                             | _ => true
+                             end
+  end.
+Lemma wf_b_sound init l : wf_b init l = true -> wf init l.
+Proof.
+  induction l as [|e t IH]; cbn; [auto|]. intro H. apply andb_true_iff in H. destruct H as [H1 H2]. split; [auto|].
+  destruct e; auto; destruct (status init t rid); cbn in H2; congruence.
+Qed.
+Definition ev_rid (e : Event) : list id := match e with EvAdd r _ | EvPickup r _ _ _ _ | EvCancel r _ _ => [r] | _ => [] end.
+Definition ledger_b (init : id -> rstatus) (s : Sim) : bool :=
+  wf_b init (log s) &&
+  forallb (fun rid => Bool.eqb (match find rid (requests s) with Some _ => true | None => false end) (rstatus_eqb (status init (log s) rid) Waiting))
+          (map fst (PM.elements (requests s)) ++ flat_map ev_rid (log s)).
+Definition nil_log_b (s : Sim) : bool := match log s with [] => true | _ => false end.
+
 (* 0: not a history over the step alphabet; 1: some premise fails; 2: premises hold and the conclusions evaluate to true on the
    model's final state; 3: premises hold, a conclusion evaluates to false (would contradict the theorems) *)
 Definition premises_case (env : Env) (s : Sim) (ops : list (XOp * tok)) (_ : Z) : Z :=
   match step_ops ops with
   | None => 0
   | Some os =>
-      if all_inv_b s && forallb op_ok_b os then
+      if all_inv_b s && nil_log_b s && forallb op_ok_b os then
         let s' := fold_left (fun a o => norm_sim (step_op env a o)) os s in
-        if all_inv_b s' then 2 else 3
+        if all_inv_b s' && ledger_b (init_of s) s' then 2 else 3
       else 1
   end.
 
 (* premises decided true => every history theorem applies (this is what code 2 / 3 certify about the case) *)
-Theorem premises_apply env s os : (forall g, e_fence env g = true) -> all_inv_b s && forallb op_ok_b os = true ->
-  let s' := fold_left (step_op env) os s in vkeys s' /\ Inv_counts s' /\ Inv_disp s' /\ Inv_place s'.
+Theorem premises_apply env s os : (forall g, e_fence env g = true) -> all_inv_b s && nil_log_b s && forallb op_ok_b os = true ->
+  let s' := fold_left (step_op env) os s in vkeys s' /\ Inv_counts s' /\ Inv_disp s' /\ Inv_place s' /\ Inv_ledger (init_of s) s'.
 Proof.
-  intros Hf H. unfold all_inv_b in H. rewrite !andb_true_iff in H. destruct H as [[[[K C] D] P] O].
+  intros Hf H. unfold all_inv_b in H. rewrite !andb_true_iff in H. destruct H as [[[[[K C] D] P] NL] O].
   apply vkeys_b_sound in K. apply inv_counts_b_sound in C. apply inv_disp_b_sound in D. apply inv_place_b_sound in P. apply ops_ok_b_sound in O.
+  assert (L : log s = []) by (unfold nil_log_b in NL; destruct (log s); [reflexivity|discriminate]).
   cbv zeta. split; [apply (counts_invariant env os s K C O)|]. split; [apply (counts_invariant env os s K C O)|].
-  split; [apply (disp_invariant env Hf os s K D O)|apply (place_invariant env os s K P O)].
+  split; [apply (disp_invariant env Hf os s K D O)|]. split; [apply (place_invariant env os s K P O)|].
+  apply (ledger_invariant env (init_of s) os s K (Inv_ledger_initial s L) O).
 Qed.
